@@ -120,7 +120,7 @@ PROPS = {
         kani_select=dict(quick=r'^k_pair_|^k_task_\w+_n3c2_m01|^k_task_flatmap_fil_(cnt|find|red)_n1c2_m1|^k_glue_(map_fil|filtermap_fil)_(cnt|find)_n3c2', thorough=r'^k_pair_|^k_task_\w+c[234]_|^k_glue_\w+c[234]_'),
         trusted_base=[T1, T5, AHW, A64, ARITH, STUBS, MODEL],
         assumptions=['T1: a pull of size c takes c consecutive elements, fewer only at the end of the source', TASK_BOUND + ' (only for "each kernel forwards its chunk size unchanged to every pull")'],
-        explanation='Verus (unbounded): calc_chunk_size maps Exact(x) to Exact(x); next_chunk_size* returns Some(x) under Exact(x); the spawn log of run/run_map/reduce is constantly x for every has_more() history and every thread count. Verus (unbounded, units tasks and redtasks): in the 13 kernel task functions under contract (4 ordered collect, 3 reduce, 3 count, 3 collect_x) every pull requests exactly the chunk size handed to the worker -- the element-wise pulls only when it is 1 (precondition `handed()` on every pull method of the iterator stand-in). Kani (bounded): the same for the find tasks and, on small shapes, for all task functions (pull log of the model iterator), including the chunked arm of the flat_map tasks on a one-element input.',
+        explanation='Verus (unbounded): calc_chunk_size maps Exact(x) to Exact(x); next_chunk_size* returns Some(x) under Exact(x); the spawn log of run/run_map/reduce is constantly x for every has_more() history and every thread count. Verus (unbounded, units tasks and redtasks): in all 16 kernel task functions (4 ordered collect, 3 reduce, 3 count, 3 collect_x, 3 find; the find tasks with RW32/RW33 assuming the adaptor chain over one chunk) every pull requests exactly the chunk size handed to the worker -- the element-wise pulls only when it is 1 (precondition `handed()` on every pull method of the iterator stand-in). Kani (bounded): the same, on small shapes, for all task functions (pull log of the model iterator), including the chunked arm of the flat_map tasks on a one-element input.',
     ),
     'C12': dict(
         level='proof', verus_units=['core'],
